@@ -944,7 +944,10 @@ def _tree_copy(x, fmt, dumping):
         return [_tree_copy(v, fmt, dumping) for v in x]        # tuples come back as lists
     if isinstance(x, IDict):
         out = IDict()
-        for k, v in x.items():
+        items = list(x.items())
+        if dumping and fmt in ('yaml', 'yml') and all(isinstance(force(k), str) for k, _ in items):
+            items.sort(key=lambda kv: kv[0])        # yaml.dump sorts mapping keys (sort_keys=True is its default)
+        for k, v in items:
             if not isinstance(force(k), (str, SLabel)):
                 raise OutOfSubset('non-string dictionary key in a serialised tree')
             out.items_.append((k, _tree_copy(v, fmt, dumping)))
